@@ -2,8 +2,10 @@
 # usage: process_seed.sh <id> <x> [props...]  -- confirm seed /tmp/seedwork/out_<id>/<x> in its worktree, store it under
 # /verif/seeded/<id>-<x>/, then run the listed properties' checks (default: <id>) against the patched worktree.
 ID=$1; X=$2; shift 2; PROPS=${@:-$ID}
-SRC=/tmp/seedwork/out_$ID/$X; WT=/tmp/seedwork/wt_$ID; DST=/verif/seeded/$ID-$X
-mkdir -p /verif/.build/seedlog; LOG=/verif/.build/seedlog/$ID-$X.log
+# ROUND=2 in the environment selects the second round of seeds (out2_<id>/, stored as <id>-r2<x>)
+if [ "${ROUND:-1}" = "2" ]; then SRC=/tmp/seedwork/out2_$ID/$X; DST=/verif/seeded/$ID-r2$X; TAG=$ID-r2$X; else SRC=/tmp/seedwork/out_$ID/$X; DST=/verif/seeded/$ID-$X; TAG=$ID-$X; fi
+WT=/tmp/seedwork/wt_$ID
+mkdir -p /verif/.build/seedlog; LOG=/verif/.build/seedlog/$TAG.log
 {
 [ -f $SRC/patch.diff ] || { echo "no patch"; exit 2; }
 rm -rf $SRC/demo/target
@@ -17,4 +19,4 @@ if grep -q "CONFIRM OK" $LOG; then
   done
   grep -E "^TRIAL|^VIOLATION" $LOG | sed 's#/verif/.build/alt_[0-9a-f]*/##' > $DST/trial.log
 fi
-echo "== $ID-$X: $(grep -c 'CONFIRM OK' $LOG) confirmed; $(grep '^TRIAL' $LOG | tr '\n' ' ')"
+echo "== $TAG: $(grep -c 'CONFIRM OK' $LOG) confirmed; $(grep '^TRIAL' $LOG | tr '\n' ' ')"
